@@ -265,7 +265,7 @@ func (s *solver) define(t *Term) {
 		s.predSent[t.name] = true
 		s.send(predDef[t.name])
 	}
-	s.send(fmt.Sprintf("(define-fun t%d () %s %s)", t.id, t.sort, t.def()))
+	s.send(fmt.Sprintf("(define-fun $t%d () %s %s)", t.id, t.sort, t.def()))
 	t.named = true
 	s.scoped = append(s.scoped, t)
 }
